@@ -1,3 +1,4 @@
+import FractopoModel.Lemmas.Dedupe
 import FractopoModel.Props.C07
 import FractopoModel.Props.C01
 import FractopoModel.Generated.LengthFilters
@@ -54,6 +55,21 @@ theorem C04_cumulative_drag_witness :
   refine ⟨fun ord => ?_, ?_, ?_, ?_⟩
   · cases ord <;> decide +kernel
   all_goals decide +kernel
+
+/-- **The duplicate filter loses nothing but duplicates** (`filter_non_unique_traces`, regenerated; the key of a trace is its WKT
+at `int(-log10(snap))` decimals): the result is the first trace of every key in the original order -- a sub-list of the input whose
+keys are pairwise different and in which every input trace finds a trace with its key. -/
+theorem C04_generated_dedupe {G K : Type} [BEq K] [LawfulBEq K] (key : G → K) (traces : List G) :
+    Gen.filter_non_unique_traces key traces = DedupeL.kept key [] traces ∧
+    (Gen.filter_non_unique_traces key traces).Sublist traces ∧
+    ((Gen.filter_non_unique_traces key traces).map key).Pairwise (· ≠ ·) ∧
+    ∀ g ∈ traces, ∃ h ∈ Gen.filter_non_unique_traces key traces, key h = key g := by
+  rw [DedupeL.generated_dedupe]
+  refine ⟨rfl, DedupeL.kept_sublist key [] traces, DedupeL.kept_keys_nodup key [] traces, ?_⟩
+  intro g hg
+  rcases DedupeL.kept_covers key [] traces g hg with h | h
+  · simp at h
+  · exact h
 
 example : Gen.branch_length_keep (3 / 200) (1 / 100) = true ∧ Gen.branch_length_keep (1 / 100) (1 / 100) = false := by decide +kernel
 
